@@ -20,11 +20,11 @@ func init() {
 func checkC04(c *Ctx) {
 	c.Rule("R4.1", "ioCore.Write: one whole-line write, buffer freed once, after the write", 1)
 	c.Rule("R4.3", "locked and buffered syncers hold their mutex across inner calls", 6)
-	c.Rule("R4.4", "sinks handed out by Open/CombineWriteSyncers/New are wrapped in Lock", 4)
-	c.Rule("R4.5", "per-call private encoder state; exclusive ownership of pooled buffers", 8)
-	c.Rule("R4.6", "tees and multi-syncers visit every branch, no early exit", 5)
+	c.Rule("R4.4", "sinks handed out by Open/CombineWriteSyncers/New are wrapped in Lock", 3)
+	c.Rule("R4.5", "per-call private encoder state; exclusive ownership of pooled buffers", 6)
+	c.Rule("R4.6", "tees and multi-syncers visit every branch, no early exit", 3)
 	c.Rule("R4.7", "no goroutine start or channel send on the logging path", 2)
-	c.Rule("R4.8", "BufferedWriteSyncer buffers whole writes", 4)
+	c.Rule("R4.8", "BufferedWriteSyncer buffers whole writes", 3)
 
 	// R4.1 (shares the decision procedure of R8.4)
 	{
